@@ -148,13 +148,25 @@ def gen_chronicle(repo):
     if len(floors) != 1:
         raise Untranslatable(f'{CHRON}:find: floor constants {sorted(floors)}')
     fy, fm, fd = floors.pop()
-    steps = {}
+    # the two steps of the day walk, whatever the locals are called: `before - <day step>` and
+    # `datetime(...) - <skip step>`
+    tds = {n.targets[0].id: n.value for n in ast.walk(fnd)
+           if isinstance(n, ast.Assign) and isinstance(n.targets[0], ast.Name)
+           and isinstance(n.value, ast.Call) and getattr(n.value.func, 'id', None) == 'timedelta'}
+    day_names, skip_names = set(), set()
     for n in ast.walk(fnd):
-        if (isinstance(n, ast.Assign) and isinstance(n.targets[0], ast.Name)
-                and n.targets[0].id in ('one', 'oneday')):
-            steps[n.targets[0].id] = _timedelta_us(n.value, n.targets[0].id)
-    if set(steps) != {'one', 'oneday'}:
-        raise Untranslatable(f'{CHRON}:find: steps one/oneday not both found')
+        if isinstance(n, ast.BinOp) and isinstance(n.op, ast.Sub) and isinstance(n.right, ast.Name) \
+                and n.right.id in tds:
+            if isinstance(n.left, ast.Name):
+                day_names.add(n.right.id)
+            elif isinstance(n.left, ast.Call) and getattr(n.left.func, 'id', None) == 'datetime':
+                skip_names.add(n.right.id)
+            else:
+                raise Untranslatable(f'{CHRON}:find: step expression {ast.unparse(n)} outside the subset')
+    if len(day_names) != 1 or len(skip_names) != 1:
+        raise Untranslatable(f'{CHRON}:find: day step {sorted(day_names)} / skip step {sorted(skip_names)} not unique')
+    steps = {'oneday': _timedelta_us(tds[day_names.pop()], 'day step'),
+             'one': _timedelta_us(tds[skip_names.pop()], 'skip step')}
     # --- API handlers
     api = _tree(repo, API)
     calls = {}
